@@ -114,29 +114,12 @@ Definition usable_outside (tch ty perms : N) : bool :=
 Definition optN (o : option N) (d : N) : N := match o with Some x => x | None => d end.
 
 (* ---------------------------------------------------------------- the property on one member *)
-(* [prev]: the members before this one with their headers (hard links point backwards) *)
-Definition linked_ok (prev : list (mcase * header)) (id : N) (link : bytes) : bool :=
-  existsb (fun mh =>
-    let '(m, h) := mh in
-    beq link (h_name h) && (h_type h =? TypeReg)
-    && match m_src (mc_member m) with
-       | SPresent o => (st_id (o_st o) =? id) && negb (p_hassrc (m_opts (mc_member m)))
-       | _ => false
-       end) prev.
-
 (* the type the member must have when its source object exists *)
 Definition expected_type (p : opts) (mode : N) : N :=
   match p_dev p with
   | Some (isc, _, _) => if isc then TypeChar else TypeBlock            (* dev= override *)
   | None => if is_nil (p_target p) then obj_type mode else TypeSymlink  (* targ= override *)
   end.
-
-(* same type -- or a hard link to an earlier member that is the same inode *)
-Definition type_ok (prev : list (mcase * header)) (p : opts) (st : stat) (h : header) : bool :=
-  let ty := expected_type p (st_mode st) in
-  (h_type h =? ty)
-  || ((ty =? TypeReg) && (h_type h =? TypeLink) && (1 <? st_nlink st)
-      && linked_ok prev (st_id st) (h_link h)).
 
 (* fields every kind of member has *)
 Definition common_fields_ok (m : mcase) (o : object) (h : header) : bool :=
@@ -147,6 +130,28 @@ Definition common_fields_ok (m : mcase) (o : object) (h : header) : bool :=
   && (h_gid h =? optN (p_gid p) (st_gid st))
   && Z.eqb (h_mtime h) (st_mtime st)
   && list_beq xattr_beq (h_xattrs h) (o_xattrs o).
+(* [prev]: the members before this one with their headers (hard links point backwards).
+   A hard link extracts as another name of the member it points to: what this name then shows
+   is the metadata and content recorded in THAT member's header, so those must be the ones
+   this name's source calls for *)
+Definition linked_ok (prev : list (mcase * header)) (m : mcase) (o : object) (link : bytes) : bool :=
+  existsb (fun mh : mcase * header =>
+    let '(m', h') := mh in
+    beq link (h_name h') && (h_type h' =? TypeReg)
+    && match m_src (mc_member m') with
+       | SPresent o' => (st_id (o_st o') =? st_id (o_st o)) && negb (p_hassrc (m_opts (mc_member m')))
+       | _ => false
+       end
+    && common_fields_ok m o h'
+    && (h_size h' =? st_size (o_st o)) && beq (h_data h') (o_data o)) prev.
+
+(* same type -- or a hard link to an earlier member that is the same inode *)
+Definition type_ok (prev : list (mcase * header)) (m : mcase) (o : object) (h : header) : bool :=
+  let ty := expected_type (m_opts (mc_member m)) (st_mode (o_st o)) in
+  (h_type h =? ty)
+  || ((ty =? TypeReg) && (h_type h =? TypeLink) && (1 <? st_nlink (o_st o))
+      && linked_ok prev m o (h_link h)).
+
 (* size and bytes, link target, device numbers *)
 Definition kind_fields_ok (p : opts) (o : object) (h : header) : bool :=
   let st := o_st o in
@@ -194,7 +199,7 @@ Definition member_ok (c : case) (prev : list (mcase * header)) (m : mcase) (h : 
   beq (h_name h) (dot :: p_name p)
   &&
   match m_src (mc_member m) with
-  | SPresent o => type_ok prev p (o_st o) h && present_fields_ok m o h
+  | SPresent o => type_ok prev m o h && present_fields_ok m o h
   | SAbsent => absent_ok c m h
   | SLstatErr => false
   end.
@@ -309,14 +314,49 @@ Definition member_wf (m : mcase) : bool :=
      | _ => true
      end.
 
+(* names of one inode show one object *)
+Definition stat_beq (a b : stat) : bool :=
+  (st_mode a =? st_mode b) && (st_uid a =? st_uid b) && (st_gid a =? st_gid b)
+  && Z.eqb (st_mtime a) (st_mtime b) && (st_size a =? st_size b) && (st_rdev a =? st_rdev b)
+  && (st_nlink a =? st_nlink b) && (st_id a =? st_id b).
+Definition same_inode (a b : mcase) : bool :=
+  match m_src (mc_member a), m_src (mc_member b) with
+  | SPresent o1, SPresent o2 => st_id (o_st o1) =? st_id (o_st o2)
+  | _, _ => false
+  end.
+Definition inode_consistent (a b : mcase) : bool :=
+  match m_src (mc_member a), m_src (mc_member b) with
+  | SPresent o1, SPresent o2 =>
+    negb (st_id (o_st o1) =? st_id (o_st o2))
+    || (stat_beq (o_st o1) (o_st o2) && list_beq xattr_beq (o_xattrs o1) (o_xattrs o2)
+        && beq (o_data o1) (o_data o2))
+  | _, _ => true
+  end.
+Fixpoint pairwise {A} (f : A -> A -> bool) (l : list A) : bool :=
+  match l with [] => true | a :: r => forallb (f a) r && pairwise f r end.
+
 Definition wf (c : case) : bool :=
   forallb member_wf (c_members c)
   && sorted_names (map (fun m => p_name (m_opts (mc_member m))) (c_members c))
   && Z.leb (c_t0 c) (c_t1 c)
   && forallb (fun m => Z.leb (c_t0 c) (m_now (mc_member m)) && Z.leb (m_now (mc_member m)) (c_t1 c)) (c_members c)
-  && forallb (fun x => (1 <=? fst x) && (fst x <=? 3)) (c_comp c).
+  && forallb (fun x => (1 <=? fst x) && (fst x <=? 3)) (c_comp c)
+  && pairwise inode_consistent (c_members c).
 
-Definition kf (c : case) : N := 0%N.
+(* known finding 1: two members are names of one inode (so the later one is written as a hard
+   link) and one of them carries mod=, uid= or gid=.  One inode has one mode and one owner: the
+   extracted tree shows the first name's header on every name, so an override on the first
+   name leaks to the others and an override on a later name is lost *)
+Definition has_override (m : mcase) : bool :=
+  let p := m_opts (mc_member m) in has (p_mod p) || has (p_uid p) || has (p_gid p).
+Definition linkable (m : mcase) : bool :=
+  match m_src (mc_member m) with
+  | SPresent o => negb (p_hassrc (m_opts (mc_member m))) && (1 <? st_nlink (o_st o))
+  | _ => false
+  end.
+Definition no_link_override (a b : mcase) : bool :=
+  negb (same_inode a b && linkable a && linkable b && (has_override a || has_override b)).
+Definition kf (c : case) : N := if pairwise no_link_override (c_members c) then 0%N else 1%N.
 
 Definition verdict (c : case) : N :=
   mkverdict (wf c) (obs_beq (model c) (c_obs c, c_comp c, c_ext c)) (spec c (c_obs c, c_comp c, c_ext c)) (kf c).
